@@ -77,7 +77,7 @@ let handle (toks : string list) : (string * string * string) option =
       let go conv =
         (match conv a region true p v with
          | Some (Ok g) -> (match conv a region false p g with
-             | Some (Ok v') -> "G=" ^ show g ^ " A=" ^ show v' ^ (if what = "rt" then " U=" ^ show v' ^ " C=" ^ show v' else "")
+             | Some (Ok v') -> (if what = "rt" then "N=ok " else "") ^ "G=" ^ show g ^ " A=" ^ show v' ^ (if what = "rt" then " U=" ^ show v' ^ " C=" ^ show v' else "")
              | Some _ -> "ABORT-BACK" | None -> "ILLTYPED")
          | Some _ -> "ABORT" | None -> "ILLTYPED") in
       let m = go cv and s = go sv in
